@@ -27,6 +27,10 @@ def run(ctx):
     S = Schema(fx)
     closure = sorted(S.wire_closure(["models::metadata::MetadataWrapper"]))
     ctx.note("signed closure: %s" % closure)
+    # hand-written serialisers of single-field wrappers (Command, KeyId ..) write the field as it is: the signed bytes record the
+    # value, not a re-tokenised or normalised copy of it (two different argument vectors must not share signed bytes)
+    from . import keys as _keys
+    _keys.check_newtype_serialize(ctx, "C05/D1", set(closure))
     # ---- D1 derived structs
     for a in closure:
         s = S.ser.get(a)
@@ -153,6 +157,7 @@ def run(ctx):
         b = ctx.region(None, policy="private", key=wf["key"], ps=True)
         lps = b.loops()
         rec = [(i, t) for (i, t) in b.calls_named(canon.WRITE)]
-        okl = len(rec) >= 2 and all(any(i in l for l in lps.values()) for (i, t) in rec) and \
-            all(not b.continuing_exits(min([l for l in lps.values() if i in l], key=len)) for (i, t) in rec)
+        # (a slice pattern `[head, tail @ ..]` writes the first element in front of the loop over the rest)
+        in_loop = [(i, t) for (i, t) in rec if any(i in l for l in lps.values())]
+        okl = len(in_loop) >= 2 and all(not b.continuing_exits(min([l for l in lps.values() if i in l], key=len)) for (i, t) in in_loop)
         ctx.inst("C05/D3", "arrays and objects emit every element", okl, "recursive write calls inside loops without early exit: %s" % okl, wf["at"])
